@@ -72,6 +72,8 @@ var (
 	StreamJob = transport.VerifStreamJob
 	// NewTransport creates the transport layer.
 	NewTransport = transport.NewTransport
+	// SetMaxSnapshotConnections overrides the limit of concurrent snapshot jobs.
+	SetMaxSnapshotConnections = transport.VerifSetMaxSnapshotConnections
 	// TransportChunks returns a Transport's receiver.
 	TransportChunks = transport.VerifTransportChunks
 	// NewEnv creates the server environment.
